@@ -835,7 +835,7 @@ def _classes(info):
     if info["t_blocked"]:
         cl.append("tick-blocked-on-lock")
     if info["straddle"]:
-        cl.append("request-began-before-and-ended-after-the-tick-finished")
+        cl.append("request-finished-after-the-tick-ended")
     cl.append("request-matters" if info["matters"] else "request-without-observable-effect")
     for e in info["elig"]:
         if e:
